@@ -74,6 +74,20 @@ def generate(rng, tier="quick"):
             extra["contexts"] = [c for c in extra["contexts"] if pl.context_key(c)[:2] not in taken]
             if extra["contexts"]:
                 scn["add_after_run"] = {"config": extra, "on": rng.subset(cands, 0.6, at_least=1)}
+    if "add_after_run" not in scn and not scn["share_config"] and cfg["carrier"] in ("dict", "odict") and cfg.get("build", "direct") == "direct" and rng.chance(0.12):
+        # run, replace one call of config.calls in place (same test, other parameters), run again
+        cands = [f for f in fes if f != "qcconfig" and f not in scn.get("twin_on", [])]
+        flat = [(ci, e) for ci, c in enumerate(cfg["contexts"]) for e in _nested_order(c["entries"])]
+        if cands and flat:
+            k = rng.randrange(len(flat))
+            ci, e = flat[k]
+            gen = {(t[0], t[1]): t[2] for t in wl.TESTS}.get((e["module"], e["test"]))
+            if gen is not None:
+                new_e = dict(e, params=gen(rng))
+                one = {"contexts": [{"window": cfg["contexts"][ci].get("window"), "entries": [new_e]}], "window_form": cfg["window_form"], "carrier": "dict", "layout": "contexts", "param_form": "plain", "build": "direct", "share_document": False}
+                if cfg["contexts"][ci].get("region"):
+                    one["contexts"][0]["region"] = cfg["contexts"][ci]["region"]
+                scn["edit_after_run"] = {"call_index": k, "ctx": ci, "entry": new_e, "one_call_config": one, "on": rng.subset(cands, 0.6, at_least=1)}
     sids = {e["sid"] for c in cfg["contexts"] + (scn.get("alt_config") or {"contexts": []})["contexts"] + (scn.get("add_after_run") or {"config": {"contexts": []}})["config"]["contexts"] for e in c["entries"]}
     if single and sids <= set(tbl["cols"]):
         # NumpyStream given one bare array instead of a dict of arrays (it then serves every stream id,
@@ -83,7 +97,7 @@ def generate(rng, tier="quick"):
         if fe == "qcconfig":
             continue
         x = rng.random()
-        if fe in (scn.get("add_after_run") or {"on": []})["on"]:
+        if fe in (scn.get("add_after_run") or {"on": []})["on"] or fe in (scn.get("edit_after_run") or {"on": []})["on"]:
             scn["reruns"].append(fe)
             continue
         if x < 0.2:
@@ -93,6 +107,13 @@ def generate(rng, tier="quick"):
             if rng.chance(0.3):
                 scn["reruns"].append(fe)  # a third run on the same objects
     return scn
+
+
+def _nested_order(entries):
+    """Entries of one context in the order Config turns them into calls (stream -> module -> test)."""
+    nested = pl.nested_streams(entries)
+    by_key = {(e["sid"], e["module"], e["test"]): e for e in entries}
+    return [by_key[(sid, m, t)] for sid, mods in nested.items() for m, tests in mods.items() for t in tests]
 
 
 def classify_subset(item_mask, model_mask, window, times, scn, fe):
@@ -141,9 +162,20 @@ def execute(scn):
     exps = {"main": rp.annotate_expected(scn, arrays)}
     if scn.get("alt_config"):
         exps["alt"] = rp.annotate_expected(scn, arrays, scn["alt_config"])
+    if scn.get("edit_after_run"):
+        ed = scn["edit_after_run"]
+        import copy as _copy
+
+        cfg_ed = _copy.deepcopy(cfg)
+        ent = ed["entry"]
+        cfg_ed["contexts"][ed["ctx"]]["entries"] = [
+            _copy.deepcopy(ent) if (x["sid"], x["module"], x["test"]) == (ent["sid"], ent["module"], ent["test"]) else x
+            for x in cfg_ed["contexts"][ed["ctx"]]["entries"]
+        ]
+        exps["edited"] = rp.annotate_expected(scn, arrays, cfg_ed)
     if scn.get("add_after_run"):
         exps["added"] = rp.annotate_expected(scn, arrays, dict(cfg, contexts=cfg["contexts"] + scn["add_after_run"]["config"]["contexts"]))
-    for e in exps["main"] + exps.get("alt", []) + exps.get("added", []):
+    for e in exps["main"] + exps.get("alt", []) + exps.get("added", []) + exps.get("edited", []):
         w = e["window"]
         if w and times:
             if w.get("ending") is not None and w["ending"] in times:
@@ -183,6 +215,9 @@ def execute(scn):
         if getattr(r, "added", False):
             exp = exps["added"]  # the final run happened after Config.add(...)
             bump("config_add_between_runs")
+        if getattr(r, "edited", False):
+            exp = exps["edited"]  # the final run happened after config.calls[k] = ...
+            bump("config_call_replaced_between_runs")
         if r.which == "alt":
             bump("alt_config_on_same_stream")
         if r.name.endswith("+twin"):
@@ -201,8 +236,8 @@ def execute(scn):
             V.append(violation(PROP, "run", fe, "step-bound", f"{t.steps} steps for {len(exp)} configured calls"))
         final_desc = [rp.describe_item(i) for i, _ in ys]
         for kind, part in t.history[:-1]:
-            if getattr(r, "added", False):
-                break  # the earlier run was of the smaller config
+            if getattr(r, "added", False) or getattr(r, "edited", False):
+                break  # the earlier run was of the config before it was extended / edited
             pd_ = [rp.describe_item(i) for i, _ in part]
             if pd_ != final_desc[: len(pd_)]:
                 V.append(violation(PROP, "e", fe, "rerun-differs", f"{kind} incarnation differs from the final run"))
@@ -277,7 +312,7 @@ def execute(scn):
                         gotv = p[name]
                         if _vals(gotv) != _vals(wantv):
                             V.append(violation(PROP, "c", fe, f"probe-{name}", f"{label}: received {gotv} expected {wantv}"))
-        if not tainted and r.which == "main" and not r.name.endswith("+twin") and not getattr(r, "added", False):
+        if not tainted and r.which == "main" and not r.name.endswith("+twin") and not getattr(r, "added", False) and not getattr(r, "edited", False):
             try:
                 from ioos_qc.results import collect_results
 
